@@ -33,6 +33,10 @@
 (*                    (now: one write)                                     *)
 (*   RowOpAsync       Store/ClearRow are acknowledged before the queued    *)
 (*                    snapshot ran (now: they wait for it)                 *)
+(* (SnapTmpTruncated = FALSE is not a state the code was found in: it      *)
+(* models a snapshot temp file opened without O_TRUNC, to show that the    *)
+(* invariants are checked across Crash/Recover epochs: a leftover of one   *)
+(* epoch must not reach the data file in the next.)                        *)
 (*   MultiSeparateWrites  the entries of a multi / batch2 write are        *)
 (*                    appended one write(2) each (now: fragment.bufferOps  *)
 (*                    appends them all with a single write)                *)
@@ -63,6 +67,7 @@ CONSTANTS Frags,            \* fragment files (one per field/view/shard)
           Kinds,            \* enabled write kinds
           KeyChunks,        \* writes needed for one translate entry
           TornTailFails, RoaringTwoWrites, RowOpAsync, MultiSeparateWrites,
+          SnapTmpTruncated, \* CreateSnapTmp opens <file>.snapshotting with O_TRUNC (os.Create)
           Contentless,
           NoOpnSnapshot     \* (Contentless only) TRUE: MaxOpN is never exceeded (the default 10000)
 
@@ -272,7 +277,11 @@ InCritical(f) == Active /\ infl.phase = "data" /\ f \in infl.frags
                  /\ (hdr[f] \/ (~Contentless /\ infl.kind \in AppendKinds /\ done[f] > 0 /\ mem[f] # goal[f]))
 CreateSnapTmp(f) ==
     /\ pc = "run" /\ sq[f] \in {"queued", "maybe"} /\ ~InCritical(f)
-    /\ tmp' = [tmp EXCEPT ![f] = "partial"] /\ tmpc' = [tmpc EXCEPT ![f] = mem[f]]
+    \* a .snapshotting file left by a snapshot that a kill interrupted in an earlier epoch
+    \* is still there (Recover does not remove it): without O_TRUNC what it holds beyond
+    \* the new, smaller snapshot survives and is renamed into the data file
+    /\ tmp' = [tmp EXCEPT ![f] = "partial"]
+    /\ tmpc' = [tmpc EXCEPT ![f] = IF SnapTmpTruncated \/ tmp[f] = "none" THEN mem[f] ELSE mem[f] \cup tmpc[f]]
     /\ sq' = [sq EXCEPT ![f] = "created"]
     /\ UNCHANGED <<mem, snap, log, torn, opn, kvars, mtmp, wvars, gvars, nw, pc, rec, reck>>
 WriteSnapChunk(f) ==
